@@ -17,6 +17,8 @@ from ..interp import ASparse, OpaqueFn
 from .. import facts as F
 
 PROP = 'C06'
+from . import lemmas as _lemmas
+LEMMAS = [_lemmas.PROTOCOL, _lemmas.SOLVE, _lemmas.BCROWS]
 RULES = {'U1': 'diffusion row sums vanish per axis block', 'U2': 'central row sum == div u', 'U3': 'upwind row sum == div u',
          'U4': 'TVD RHS == 0 for constant phi', 'U5': 'source terms diagonal / cell-local'}
 ASSUMPTIONS = ['exact arithmetic', 'the steady-state / phi=gamma/beta corollaries follow from U1-U5 together with C04 (solvePDE solves the assembled system)']
